@@ -545,6 +545,59 @@ def handed_down_values_typed(h: Harness, rng):
                     break
 
 
+def weighted_string_grammar(h: Harness, rng):
+    """a refinement object with parameters of its own (WeightedStringHandler: rows with zero entries, an all-zero row, a row below the chooser's
+    resolution) and bounded lists that generate their elements themselves (ListSizeBetweenWithoutListOperations): creation and mapping return a
+    program whose fields hold values of their declared types, or fail with the library's own error"""
+    import wsgrammar
+    from dataclasses import dataclass
+    from typing import Annotated
+    from linear import DSGE, GE, SGE, safe
+    from geneticengine.grammar.grammar import extract_grammar
+    from geneticengine.grammar.metahandlers.lists import ListSizeBetweenWithoutListOperations
+    from geneticengine.random.sources import NativeRandomSource
+    from geneticengine.representations.tree.treebased import TreeBasedRepresentation
+
+    Many = wsgrammar.Many
+    g = wsgrammar.grammar_with_lists()
+    for trial in range(h.n(8, 60)):
+        r = NativeRandomSource(rng.randrange(10**6))
+        reps = [("tree", TreeBasedRepresentation(g, synth.make_decider(rng.choice(["grow", "full", "pigrow"]), 3, r, g))),
+                ("GE", GE(g, synth.make_decider("grow", 3, r, g), gene_length=64)), ("SGE", SGE(g, synth.make_decider("grow", 3, r, g), gene_length=32)),
+                ("DynamicSGE", DSGE(g, 3))]
+        for name, rep in reps:
+            st, geno = safe(lambda: rep.create_genotype(r))
+            out = (st, geno)
+            if st == "ok":
+                out = safe(lambda: rep.genotype_to_phenotype(geno))
+            st, p = out
+            h.count(f"weighted-string-grammar:{name}:{st}")
+            site = f"{name}.genotype_to_phenotype" if name != "tree" else "TreeBasedRepresentation.create_genotype"
+            if st == "err" and str(p).startswith("foreign"):
+                h.fail(site, "foreign-error", f"creation on a grammar with a WeightedStringHandler field and a ListSizeBetweenWithoutListOperations field failed with {p} "
+                       "instead of the library's own error type", [name, trial])
+                continue
+            if st != "ok":
+                continue
+            h.seen(f"ws-typed:{name}:{repr(p)[:60]}", nontrivial=True)
+            todo, bad = [p], None
+            while todo and bad is None:
+                x = todo.pop()
+                if isinstance(x, wsgrammar.Join):
+                    todo += [x.l, x.r]
+                elif isinstance(x, Many):
+                    if not isinstance(x.items, list) or not all(isinstance(i, wsgrammar.Seq) for i in x.items):
+                        bad = f"Many.items holds {x.items!r} where a list of Seq is declared"
+                    todo += list(x.items) if isinstance(x.items, list) else []
+                elif isinstance(x, wsgrammar.Seq):
+                    if type(x.s) is not str or type(x.k) is not int:
+                        bad = f"Seq holds s={x.s!r}, k={x.k!r} where str and int are declared"
+                else:
+                    bad = f"{x!r} is not a production of the grammar"
+            if bad:
+                h.fail(site, "ill-typed-program", bad, [name, trial])
+
+
 def ranking_fresh_individuals(h: Harness, rng):
     """`Individual.key_function(problem)` is public: ranking individuals that nothing has mapped or evaluated yet (sorted / max over a
     freshly created population) maps and evaluates them -- the fitness function is handed programs of the grammar"""
@@ -823,6 +876,7 @@ def run(h: Harness):
     warm_started_searches(h, rng)
     handed_down_values_typed(h, rng)
     ranking_fresh_individuals(h, rng)
+    weighted_string_grammar(h, rng)
     very_deep_programs(h, rng)
     dsge_wrapped_union_keys(h, rng)
     stack_wrapped_fields(h, rng)
